@@ -5,6 +5,7 @@ formula across the package); name entries (absolute DIE offset, insertion order,
 (J-BISECT) and hit conditions; get_CU_containing / get_CU_at / get_DIE_from_lut_entry.
 """
 import ast
+from sa.canon import U
 from sa.world import get_world
 from sa import dwconf, layout, expr, paths, streams, dispatch, hrules
 from sa.report import AnalysisError
@@ -45,13 +46,13 @@ def run(ctx):
 def check_entry_structs(ctx, w):
     # name entry struct built in NameLUT._get_entries: offset-sized die_ofs, C string iff non-zero
     f = w.model.func(NL, 'NameLUT._get_entries')
-    src = ast.unparse(f.node)
+    src = U(f.node)
     ok = "entry_struct = Struct('Dwarf_offset_name_pair', self._structs.Dwarf_offset('die_ofs'), If(lambda ctx: ctx['die_ofs'], CString('name')))" in src
     ctx.ob('L-CONF', f.construct, 'entry = offset-sized die_ofs, C string iff die_ofs != 0', ok,
            msg='name entry must be an offset-sized DIE offset followed by a name only when the offset is non-zero')
     g = w.model.func(AR, 'ARanges._get_addr_size_struct')
     genv = expr.FEnv(g.node, params=('addr_header_value',))
-    rp = [(dict((expr.cond_str(t, genv), pol) for t, pol in c), expr.nfs(r, genv)) for c, r, p in paths.returns_with_conds(g.node)]
+    rp = [(expr.Facts(expr.CP(expr.cond_str(t, genv), pol) for t, pol in c), expr.nfs(r, genv)) for c, r, p in paths.returns_with_conds(g.node)]
     want4 = expr.spec_cond('addr_header_value == 4')
     ok = ({want4: True}, 'Dwarf_uint32') in rp and any(c.get(want4) is False and r == 'Dwarf_uint64' for c, r in rp)
     ctx.ob('L-CONF', g.construct, 'tuple fields: 4 -> u32, 8 -> u64', ok, got=rp, msg='tuple field width does not follow the set\'s address_size')
@@ -86,7 +87,7 @@ def check_aranges(ctx, w):
                'address_size': 'address_size', 'segment_size': 'segment_size'}
     ctx.ob('E-i', f.construct, 'range tuple carries its set header', kw == want_kw, got=kw, expected=want_kw)
     g = w.model.func(AR, 'ARanges.__init__')
-    src = [ast.unparse(s) for s in g.node.body if not (isinstance(s, ast.Expr) and isinstance(s.value, ast.Constant))]
+    src = [U(s) for s in g.node.body if not (isinstance(s, ast.Expr) and isinstance(s.value, ast.Constant))]
     ok = 'self.entries = self._get_entries()' in src and 'self.entries.sort(key=lambda entry: entry.begin_addr)' in src and \
         'self.keys = [entry.begin_addr for entry in self.entries]' in src and \
         src.index('self.entries.sort(key=lambda entry: entry.begin_addr)') < src.index('self.keys = [entry.begin_addr for entry in self.entries]')
@@ -125,11 +126,11 @@ def check_namelut(ctx, w):
     tests = [expr.cond_str(n.test, env) for n in ast.walk(f.node) if isinstance(n, ast.If)]
     ctx.ob('W-LUT', f.construct, 'set ends at die_ofs == 0', tests == [expr.spec_cond('die_ofs == 0')], got=tests)
     ctx.ob('W-LUT', f.construct, 'plain dict in encounter order, headers appended in order',
-           tr.get('entries') == [('=', 'tuple()')] or ("entries = {}" in ast.unparse(f.node) and 'cu_headers.append(namelut_hdr)' in ast.unparse(f.node)))
+           tr.get('entries') == [('=', 'tuple()')] or ("entries = {}" in U(f.node) and 'cu_headers.append(namelut_hdr)' in U(f.node)))
     sorts = [n for n in ast.walk(w.model.tree(NL)) if isinstance(n, ast.Call) and (dispatch.callee_name(n) in ('sorted',) or
              (isinstance(n.func, ast.Attribute) and n.func.attr == 'sort'))]
-    ctx.ob('W-LUT', NL, 'no sorting anywhere in the module (encoded order preserved)', not sorts, got=[ast.unparse(s) for s in sorts])
-    ctx.ob('W-LUT', f.construct, 'name decoded as UTF-8 key', "entries[entry.name.decode('utf-8')] = NameLUTEntry(" in ast.unparse(f.node))
+    ctx.ob('W-LUT', NL, 'no sorting anywhere in the module (encoded order preserved)', not sorts, got=[U(s) for s in sorts])
+    ctx.ob('W-LUT', f.construct, 'name decoded as UTF-8 key', "entries[entry.name.decode('utf-8')] = NameLUTEntry(" in U(f.node))
     rets = [expr.nfs(r.value, env) for r in expr.returns_of(f.node)]
     ctx.ob('W-LUT', f.construct, 'returns (entries, headers)', rets == ['tuple(entries,cu_headers)'], got=rets)
     # every accessor goes through the lazy guard
@@ -138,13 +139,13 @@ def check_namelut(ctx, w):
         g = ci.methods[m]
         ifs = [n for n in g.node.body if isinstance(n, ast.If)]
         ok = len(ifs) == 1 and expr.cond_str(ifs[0].test) in (expr.spec_cond('_entries is None'), expr.spec_cond('_cu_headers is None')) and \
-            [ast.unparse(s).replace('(', '').replace(')', '') for s in ifs[0].body] == ['self._entries, self._cu_headers = self._get_entries']
+            [U(s).replace('(', '').replace(')', '') for s in ifs[0].body] == ['self._entries, self._cu_headers = self._get_entries']
         ctx.ob('W-LUT', g.construct, 'lazy load guard', ok)
     for q, sec in (('DWARFInfo.get_pubtypes', 'debug_pubtypes_sec'), ('DWARFInfo.get_pubnames', 'debug_pubnames_sec')):
         g = w.model.func(DI, q)
-        ctx.ob('W-LUT', g.construct, 'table over its own section', 'NameLUT(self.%s.stream, self.%s.size, self.structs)' % (sec, sec) in ast.unparse(g.node))
+        ctx.ob('W-LUT', g.construct, 'table over its own section', 'NameLUT(self.%s.stream, self.%s.size, self.structs)' % (sec, sec) in U(g.node))
     g = w.model.func(DI, 'DWARFInfo.get_aranges')
-    ctx.ob('W-LUT', g.construct, 'aranges over .debug_aranges', 'ARanges(self.debug_aranges_sec.stream, self.debug_aranges_sec.size, self.structs)' in ast.unparse(g.node))
+    ctx.ob('W-LUT', g.construct, 'aranges over .debug_aranges', 'ARanges(self.debug_aranges_sec.stream, self.debug_aranges_sec.size, self.structs)' in U(g.node))
     g = w.model.func(DI, 'DWARFInfo.get_DIE_from_lut_entry')
     genv = expr.FEnv(g.node, params=('lut_entry',))
     rets = [expr.nfs(r.value, genv) for r in expr.returns_of(g.node)]
@@ -199,9 +200,9 @@ def check_bisect(ctx, w):
     env = expr.FEnv(f.node, params=('addr',), inline=False)
     sites = _bisect_sites(f.node)
     ctx.ob('J-BISECT', f.construct, 'bisect_right on the key list', len(sites) == 1 and sites[0].func.id == 'bisect_right' and
-           expr.nfs(sites[0].args[0], env) == 'keys' and expr.nfs(sites[0].args[1], env) == 'addr', got=[ast.unparse(s) for s in sites])
+           expr.nfs(sites[0].args[0], env) == 'keys' and expr.nfs(sites[0].args[1], env) == 'addr', got=[U(s) for s in sites])
     # the [i-1] probe on a possibly empty table needs a guard: some path condition must establish i >= 1 / non-empty
-    src = ast.unparse(f.node)
+    src = U(f.node)
     guarded = False
     for n in ast.walk(f.node):
         if isinstance(n, ast.If):
@@ -212,7 +213,7 @@ def check_bisect(ctx, w):
                 guarded = True
     for n in ast.walk(f.node):
         if isinstance(n, ast.IfExp):
-            guarded = guarded or 'entries' in ast.unparse(n.test) or '> 0' in ast.unparse(n.test) or '>= 1' in ast.unparse(n.test)
+            guarded = guarded or 'entries' in U(n.test) or '> 0' in U(n.test) or '>= 1' in U(n.test)
     ctx.ob('J-BISECT', f.construct, 'probe [i-1] guarded against an empty table / i == 0', guarded,
            msg='entries[bisect_right(keys, addr) - 1] with an empty table or an address below every range indexes [-1]: '
                'IndexError on an empty table instead of None (an address below the first range wraps to the last entry, '
@@ -225,10 +226,10 @@ def check_bisect(ctx, w):
            expr.nfs(sites[0].args[0], genv) == '_cu_offsets_map' and expr.nfs(sites[0].args[1], genv) == 'offset')
     ifs = [n for n in g.node.body if isinstance(n, ast.If)]
     ok = len(ifs) == 1 and expr.cond_str(ifs[0].test, genv) == expr.spec_cond('i >= 1 and offset == _cu_offsets_map[i - 1]') and \
-        [ast.unparse(s) for s in ifs[0].body] == ['return self._cu_cache[i - 1]']
+        [U(s) for s in ifs[0].body] == ['return self._cu_cache[i - 1]']
     ctx.ob('J-BISECT', g.construct, 'hit test keys[i-1] == offset under i >= 1, value from the parallel list at the same index', ok,
            got=expr.cond_str(ifs[0].test, genv) if ifs else None)
-    ins = [ast.unparse(s) for s in g.node.body if isinstance(s, ast.Expr) and not isinstance(s.value, ast.Constant)]
+    ins = [U(s) for s in g.node.body if isinstance(s, ast.Expr) and not isinstance(s.value, ast.Constant)]
     ctx.ob('J-BISECT', g.construct, 'both parallel lists inserted at the bisect index', ins == ['self._cu_offsets_map.insert(i, offset)', 'self._cu_cache.insert(i, cu)'], got=ins,
            msg='the key list and the object list must be updated together at the same index')
     tr = expr.assign_trace(g.node, genv)
